@@ -26,11 +26,15 @@ class InventoryOracle(rc.ReportStream):
 
 class ProductStream(InventoryOracle, Stream):
     name = "product"
-    rule = ("identifier class (current, deprecated, exception, LicenseRef-, unknown, wrong case) x way of use (alone, '+', AND, OR, "
+    rule = ("identifier class (current, deprecated, exception, LicenseRef-, unknown, wrong case, ill-formed LicenseRef- look-alike: "
+            "underscore, non-ASCII letters / digits, colon, empty tail) x way of use (alone, '+', AND, OR, "
             "WITH, nested parentheses, two tags, .license, REUSE.toml, dep5, not used) x way of provision (absent, ID.txt, ID.md, ID, "
-            "sub-directory, ID+.txt, ID.txt with .license companion): every cell once with identifiers drawn without replacement "
-            "(thorough: every identifier of the bundled lists at least twice more), plus the identifiers whose stem is an identifier and "
-            "the LicenseRef-*Unknown* family; real `reuse lint --json` on the generated tree vs the model fed from the generator's "
+            "sub-directory, ID+.txt, ID.txt with .license companion, only a differently named relative: ID-or-later.txt, ID-only.txt): "
+            "every cell once with identifiers drawn without replacement "
+            "(thorough: every identifier of the bundled lists at least twice more), plus the identifiers whose stem is an identifier, "
+            "the LicenseRef-*Unknown* family, look-alikes that can only be file names (`LicenseRef-a~b`, blanks, `@`), and the GNU "
+            "families (every X with X-only and X-or-later on the list): used spelling {X, X-only, X-or-later} x {plain, '+'} x provided "
+            "spelling {X, X+, X-only, X-or-later} (quick: 90 of the combinations, thorough: all); real `reuse lint --json` on the generated tree vs the model fed from the generator's "
             "records; oracle = the set definitions of the property text; non-trivial = distinct reports")
 
     def cases(self, tier, rng):
@@ -43,7 +47,7 @@ class TreeStream(InventoryOracle, Stream):
     name = "trees"
     rule = ("compliant-by-construction trees (1-6 files, headers in 7 comment styles, .license siblings, binaries, REUSE.toml incl. "
             "aggregate precedence, REUSE.toml hierarchies, dep5 with wildcard paragraphs, sub-directories of LICENSES/, .license companions, non-covered material, some in a Git "
-            "repository) with 0-5 injected defects of 20 kinds; licence categories of the real report vs model vs property definitions")
+            "repository with ignored files / directories and covered files named alike) with 0-5 injected defects of 22 kinds; licence categories of the real report vs model vs property definitions")
 
     def cases(self, tier, rng):
         k = 0
